@@ -243,4 +243,104 @@ theorem lzmaDecode_raw (props : Props) (d : Nat) (u : Option Nat) (a : Bool) (x 
   simp only []
   exact decodeBuffer_raw lzmaCall lzmaCall_raw _ _ _
 
+/-! ### the same for LZMA2 and for raw chains -/
+
+def StepRaw : Step → Prop
+  | .done r => RawRet r.1
+  | .next _ => True
+
+theorem l2Step_raw (s : St) : StepRaw (l2Step s) := by
+  by_cases hq : s.l2.seq = .lzma
+  · rw [l2Step_lzma s hq]
+    have hr := lzmaCall_raw s
+    generalize lzmaCall s = r at hr
+    unfold l2Lzma
+    split
+    · exact Or.inr (Or.inr (Or.inl rfl))
+    · simp only []
+      split
+      · exact hr
+      · split
+        · exact Or.inr (Or.inr (Or.inl rfl))
+        · trivial
+  · by_cases hg : s.inPos < s.inp.size
+    · by_cases hc : s.l2.seq = .copy
+      · rw [l2Step_copy s hc hg]
+        have := (l2Copy_facts s hc).2
+        cases hst : l2Copy s with
+        | done r => rw [hst] at this; exact Or.inl this.1
+        | next s1 => trivial
+      · rw [l2Step_byte s hq hc hg]
+        generalize curByte s = byte
+        cases hs : s.l2.seq with
+        | control =>
+          simp only [l2Byte]
+          unfold l2Control
+          split
+          · exact Or.inr (Or.inl rfl)
+          · split
+            · exact Or.inr (Or.inr (Or.inl rfl))
+            · simp only []
+              split
+              · exact Or.inl rfl
+              · trivial
+        | properties =>
+          simp only [l2Byte]
+          cases propsDecode byte with
+          | none => exact Or.inr (Or.inr (Or.inl rfl))
+          | some p => trivial
+        | uncompressed1 => trivial
+        | uncompressed2 => trivial
+        | compressed0 => trivial
+        | compressed1 => trivial
+        | lzma => trivial
+        | copy => trivial
+    · rw [l2Step_starve s hq hg]
+      exact Or.inl rfl
+
+theorem lzma2Loop_raw : ∀ f s, RawRet (lzma2Loop f s).1
+  | 0, s => by unfold lzma2Loop; exact Or.inr (Or.inr (Or.inr rfl))
+  | f + 1, s => by
+    rw [lzma2Loop_succ]
+    have h := l2Step_raw s
+    cases hst : l2Step s with
+    | done r => rw [hst] at h; exact h
+    | next s1 => exact lzma2Loop_raw f s1
+
+theorem lzma2Call_raw (s : St) : RawRet (lzma2Call s).1 := lzma2Loop_raw _ s
+
+theorem Coder.code_raw (c : Coder) (cap : Nat) : RawRet (c.code cap).1 := by
+  obtain ⟨kind, s⟩ := c
+  cases kind with
+  | lzma1 => rw [Coder.code_lzma1]; exact decodeBuffer_raw lzmaCall lzmaCall_raw _ _ _
+  | lzma2 => rw [Coder.code_lzma2]; exact decodeBuffer_raw lzma2Call lzma2Call_raw _ _ _
+
+/-- a raw chain answers LZMA_OK / LZMA_STREAM_END / LZMA_DATA_ERROR, or an initialisation error (LZMA_PROG_ERROR,
+    LZMA_OPTIONS_ERROR); never LZMA_FORMAT_ERROR -/
+theorem rawDecode_ne_formatError (ch : Chain) (x : List UInt8) (cap : Nat) : (rawDecode ch x cap).ret ≠ .formatError := by
+  unfold rawDecode
+  cases hi : ch.last.init (ByteArray.mk x.toArray) with
+  | error r =>
+    simp only []
+    cases hl : ch.last with
+    | lzma1 props d p =>
+      rw [hl] at hi; simp only [LastFilter.init] at hi
+      split at hi
+      · cases hi; simp
+      · cases hi
+    | lzma1ext props d p fl e =>
+      rw [hl] at hi; simp only [LastFilter.init] at hi
+      split at hi
+      · cases hi; simp
+      · split at hi
+        · cases hi; simp
+        · cases hi
+    | lzma2 d p => rw [hl] at hi; simp only [LastFilter.init] at hi; cases hi
+  | ok c =>
+    simp only []
+    have h := Coder.code_raw c cap
+    intro hc
+    rw [hc] at h
+    rcases h with h | h | h | h <;> cases h
+
 end XzVerif.Lzma2
